@@ -681,7 +681,7 @@ func (p *Path) lookup(instr *ssa.Lookup, x, idx Value) Value {
 		}
 		return v
 	case string:
-		i := p.indexCheck(idx.(*Term), len(x), nil)
+		i := p.indexCheck(idx.(*Term), len(x), instr.Index.Type())
 		return p.mkInt(types.Typ[types.Uint8], int64(x[i]))
 	}
 	panic(fmt.Sprintf("lookup in %T", x))
